@@ -172,7 +172,7 @@ func (p *Packer) Pack(src string, w io.Writer) (*Meta, error) {
 	}
 
 	// Walk the tree of files.
-	err = filepath.Walk(src, p.packWalkFn(src, src, src, tarW, meta, ignoreRules))
+	err = filepath.Walk(src, p.packWalkFn(src, src, src, tarW, meta, ignoreRules, nil))
 	if err != nil {
 		return nil, err
 	}
@@ -190,7 +190,9 @@ func (p *Packer) Pack(src string, w io.Writer) (*Meta, error) {
 	return meta, nil
 }
 
-func (p *Packer) packWalkFn(root, src, dst string, tarW *tar.Writer, meta *Meta, ignoreRules *ignorefiles.Ruleset) filepath.WalkFunc {
+// active lists the dereferenced directories whose walk is in progress, so that
+// a link leading back into one of them is recognised as a cycle.
+func (p *Packer) packWalkFn(root, src, dst string, tarW *tar.Writer, meta *Meta, ignoreRules *ignorefiles.Ruleset, active []os.FileInfo) filepath.WalkFunc {
 	return func(path string, info os.FileInfo, err error) error {
 		if err != nil {
 			return err
@@ -289,7 +291,13 @@ func (p *Packer) packWalkFn(root, src, dst string, tarW *tar.Writer, meta *Meta,
 			// If the target is a directory we can recurse into the target
 			// directory by calling the packWalkFn with updated arguments.
 			if resolved.info.IsDir() {
-				return filepath.Walk(resolved.absTarget, p.packWalkFn(root, resolved.absTarget, path, tarW, meta, ignoreRules))
+				for _, dir := range active {
+					if os.SameFile(dir, resolved.info) {
+						return fmt.Errorf("symlink %q leads back into a directory being dereferenced", path)
+					}
+				}
+				active := append(active[:len(active):len(active)], resolved.info)
+				return filepath.Walk(resolved.absTarget, p.packWalkFn(root, resolved.absTarget, path, tarW, meta, ignoreRules, active))
 			}
 
 			// Like special files inside the source directory, a fifo, socket
@@ -345,6 +353,16 @@ func (p *Packer) packWalkFn(root, src, dst string, tarW *tar.Writer, meta *Meta,
 // encounter a symbolic link chain. It returns path information about the final
 // target pointing to a regular file or directory.
 func (p *Packer) resolveExternalLink(root string, path string) (*externalSymlink, error) {
+	return p.resolveExternalLinkChain(root, path, 0)
+}
+
+func (p *Packer) resolveExternalLinkChain(root string, path string, hops int) (*externalSymlink, error) {
+	// A chain of links that does not end is an error, as it is for the
+	// operating system.
+	if hops > 255 {
+		return nil, fmt.Errorf("too many levels of symbolic links at %q", path)
+	}
+
 	// Read the symlink file to find the destination.
 	target, err := os.Readlink(path)
 	if err != nil {
@@ -368,7 +386,7 @@ func (p *Packer) resolveExternalLink(root string, path string) (*externalSymlink
 
 	// Recurse if the symlink resolves to another symlink
 	if info.Mode()&os.ModeSymlink != 0 {
-		return p.resolveExternalLink(root, absTarget)
+		return p.resolveExternalLinkChain(root, absTarget, hops+1)
 	}
 
 	return &externalSymlink{
